@@ -42,6 +42,7 @@ ann('impl#1', 'impl-start', r'''
         &&& (self.problem_def is Some <==> self.validity_checker is Some)
         &&& (self.problem_def is Some ==> {
             &&& t_shape(self.tree@)
+            &&& self.tree@.len() >= 1
             &&& self.cur_pd().start_states.len() >= 1
             &&& self.tree@[0].state == self.cur_pd().start_states@[0]
         })
@@ -123,6 +124,7 @@ ann('fn reconstruct_path', 'loop while#1', r'''
 ''', 'rrt.reconstruct_path.loop')
 ann('fn reconstruct_path', 'loop-end while#1', r'''
             proof {
+                reveal(t_shape);
                 let t = self.tree@;
                 if path_states@.len() > 0 { axiom_state_clone::<S>(t[index as int].state, path_states@.last()); }
                 let rest = if index > 0 { t_up(t, t[index as int].parent_index->Some_0 as int) } else { Seq::<S>::empty() };
@@ -164,6 +166,9 @@ ann('fn setup', 'before /let start_state = self\.problem_def\.as_ref\(\)\.unwrap
 ann('fn setup', 'after /let start_state = self\.problem_def\.as_ref\(\)\.unwrap\(\)\.start_states\[0\]\.clone\(\);/', r'''
         proof { axiom_state_clone::<S>(self.problem_def->Some_0.start_states@[0], start_state); }
 ''', 'rrt.setup.clone')
+ann('fn setup', 'after /self\.tree\.push\(start_node\);/', r'''
+        proof { lemma_tree_single(self.tree@, &*self.problem_def->Some_0.space, &*self.validity_checker->Some_0); }
+''', 'rrt.setup.single')
 
 ann('fn solve', 'attr', '#[verifier::exec_allows_no_decreases_clause]', 'rrt.solve.attr')
 ann('fn solve', 'sig', r'''
@@ -210,6 +215,7 @@ ann('fn solve', 'loop for#1', r'''
                 invariant
                     self.wf(), self.is_setup(), pd == self.problem_def->Some_0,
                     1 <= i <= self.tree.len(),
+                    nearest_node_index < self.tree.len(),
                     <f64 as PartialOrdSpec<f64>>::obeys_partial_cmp_spec(),
                     min_dist == pd.space.dist_spec(&self.tree@[nearest_node_index as int].state, &q_rand),     //@ min_dist [C05,C16]
                     t_nearest(self.tree@, &*pd.space, &q_rand, nearest_node_index as int, i as int),            //@ nearest [C16]
@@ -248,6 +254,7 @@ ann('fn solve', 'before /if self\.check_motion\(q_near, &q_new\) \{/', r'''
                 assert(q_new == steer_spec(&*pd.space, q_near, &g_q, self.max_distance));                //@ steer [C05,C16]
                 if in_bounds_premises(&**pd, self.max_distance) && t_in_bounds(self.tree@, &*pd.space) {
                     lemma_sample_in_bounds(&**pd, &g_q);
+                    lemma_in_bounds_at(self.tree@, &*pd.space, nearest_node_index as int);
                     lemma_steer_in_bounds(&*pd.space, q_near, &g_q, self.max_distance);
                     assert(pd.space.in_bounds_spec(&q_new));                                             //@ steer_in_bounds [C04]
                 }
@@ -292,38 +299,9 @@ ann('fn solve', 'loop-end loop#1', r'''
 ''', 'rrt.solve.iter.end', tags=['C16'])
 ann('fn solve', 'before /return Ok\(self\.reconstruct_path\(self\.tree\.len\(\) - 1\)\);/', r'''
                     proof {
-                        let t = self.tree@;
-                        let n = t.len() - 1;
-                        let sp = pd.space;
-                        let vcc = *vc;
-                        lemma_up_ends(t, n);
-                        lemma_up_nodes(t, n, |s: S| vcc.valid(&s));
-                        lemma_up_edges(t, n, |a: S, b: S| motion_checked(&*sp, &*vcc, &a, &b));
-                        let u = t_up(t, n);
-                        let p = u.reverse();
-                        assert forall|k: int| 0 <= k < p.len() implies vcc.valid(&#[trigger] p[k]) by { assert(p[k] == u[u.len() - 1 - k]); }
-                        assert forall|k: int| #![trigger p[k]] 0 <= k < p.len() - 1 implies seg_checked(&*sp, &*vcc, &p[k], &p[k + 1]) by {
-                            assert(p[k] == u[u.len() - 1 - k]);
-                            assert(p[k + 1] == u[u.len() - 2 - k]);
-                            assert(motion_checked(&*sp, &*vcc, &u[(u.len() - 2 - k) + 1], &u[u.len() - 2 - k]));
-                        }
-                        assert(p[0] == t[0].state);
-                        assert(p[p.len() - 1] == t[n].state);
-                        if interp_speed_ok(&*sp) && fle(0.0f64, self.max_distance) && t_edges_le(t, &*sp, rv(self.max_distance)) {
-                            let m = rv(self.max_distance);
-                            lemma_up_edges(t, n, |a: S, b: S| rv(sp.dist_spec(&a, &b)) <= m);
-                            assert forall|k: int| #![trigger p[k]] 0 <= k < p.len() - 1 implies rv(sp.dist_spec(&p[k], &p[k + 1])) <= m by {
-                                assert(p[k] == u[u.len() - 1 - k]);
-                                assert(p[k + 1] == u[u.len() - 2 - k]);
-                                assert(rv(sp.dist_spec(&u[(u.len() - 2 - k) + 1], &u[u.len() - 2 - k])) <= m);
-                            }
-                        }
-                        if t_in_bounds(t, &*sp) {
-                            lemma_up_nodes(t, n, |s: S| sp.in_bounds_spec(&s));
-                            assert forall|k: int| 0 <= k < p.len() implies sp.in_bounds_spec(&#[trigger] p[k]) by { assert(p[k] == u[u.len() - 1 - k]); }
-                        }
+                        lemma_chain_path(self.tree@, self.tree@.len() - 1, &*pd.space, &**vc, rv(self.max_distance));
                     }
-''', 'rrt.solve.ok')
+''', 'rrt.solve.ok', tags=['C01', 'C02', 'C03', 'C04', 'C05'])
 
 ANNS = {SRC: A}
 
